@@ -9,8 +9,9 @@ exactly for the sensors whose entry in dataset.DEFAULT_SENSOR_PROPS says allow_r
 Each fact is re-read from the source (Python ast, fail-closed) into Gen/Generated.v; Proofs/ConcatP.v
 (`concat_constants_ok`) proves they have the values the model assumes."""
 import ast
+import re
 
-from vh.translate import TranslateError, _class, _func, _parse, coq_string, coq_strings
+from vh.translate import TranslateError, _class, _func, _parse, coq_string, coq_strings, coq_Z
 
 REL = 'katdal/concatdata.py'
 
@@ -214,6 +215,54 @@ def item_identity(repo, out):
 # ---------------------------------------------------------------------------------------------------------------
 # the dummy value per type (sensordata.dummy_sensor_getter), the filler of ConcatenatedSensorCache.get
 
+def _cast_int_filler(node):
+    """np.array(<int literal>).astype(dtype)[()] -> the int; anything else -> None"""
+    if not (isinstance(node, ast.Subscript) and isinstance(node.slice, ast.Tuple) and not node.slice.elts):
+        return None
+    call = node.value
+    if not (isinstance(call, ast.Call) and isinstance(call.func, ast.Attribute) and call.func.attr == 'astype'
+            and len(call.args) == 1 and not call.keywords and _src(call.args[0]) == 'dtype'):
+        return None
+    inner = call.func.value
+    if not (isinstance(inner, ast.Call) and _src(inner.func) == 'np.array' and len(inner.args) == 1 and not inner.keywords):
+        return None
+    a = inner.args[0]
+    neg = isinstance(a, ast.UnaryOp) and isinstance(a.op, ast.USub)
+    if neg:
+        a = a.operand
+    if not (isinstance(a, ast.Constant) and isinstance(a.value, int) and not isinstance(a.value, bool)):
+        return None
+    return -a.value if neg else a.value
+
+
+def _c12_constants_fallback(repo, out, int_dummy):
+    """Model/SensorCache.v (in C19's cone: Concat.dummy_code = SensorCache.dummy_value) uses two constants that C12's
+    whole-function item `item_sensor_api_shape` regenerates: sensor_dummy_int and sensor_offset_default.  That item
+    matches dummy_sensor_getter against a pattern of its own; while the pattern does not accept the current source
+    (e.g. between a repair of dummy_sensor_getter and the update of C12's pattern) the item emits NOTHING and
+    SensorCache.v would not compile.  Only in that case the two constants are emitted here, read from the same source
+    lines (never twice: when C12's item translates, this function emits nothing)."""
+    from vh.items import c12
+    try:
+        c12.item_sensor_api_shape(repo, [])
+        return
+    except TranslateError:
+        pass
+    rel = 'katdal/sensordata.py'
+    ex = _func(_class(_parse(repo, rel), 'SensorCache', rel), '_extract', rel)
+    offs = []
+    for n in ast.walk(ex):
+        if isinstance(n, ast.Call) and _src(n.func) == 'props.get' and len(n.args) == 2 \
+                and isinstance(n.args[0], ast.Constant) and n.args[0].value == 'time_offset':
+            offs.append(n.args[1])
+    if len(offs) != 1 or not (isinstance(offs[0], ast.Constant) and isinstance(offs[0].value, (int, float))
+                              and not isinstance(offs[0].value, bool) and offs[0].value == int(offs[0].value)):
+        raise TranslateError("SensorCache._extract: expected exactly one props.get('time_offset', <integral number>)")
+    out.append('(* the next two: C12\'s item_sensor_api_shape does not translate this tree; emitted by C19 for Model/SensorCache.v *)')
+    out.append('Definition sensor_dummy_int : Z := %s.' % coq_Z(int_dummy))
+    out.append('Definition sensor_offset_default : Z := %s.' % coq_Z(int(offs[0].value)))
+
+
 def item_dummy(repo, out):
     """The if-chain `if np.issubdtype(dtype, np.<abstract type>): value = ...` as a table (type class, filler)."""
     rel = 'katdal/sensordata.py'
@@ -230,8 +279,8 @@ def item_dummy(repo, out):
         raise TranslateError('dummy_sensor_getter: the branch for value=None is not a single if-chain on the dtype')
     table = []
     cur = node[0]
-    fillers = {'np.dtype(dtype).type(np.nan)': 'nan', 'np.dtype(dtype).type(-1)': '-1', "''": 'empty', 'False': 'False',
-               'np.array(-1).astype(dtype)[()]': '-1'}      # the latter: -1 / all bits set, the repair of finding C19-F4
+    fillers = {'np.dtype(dtype).type(np.nan)': 'nan', "''": 'empty', 'False': 'False'}
+    int_dummy = []
     while True:
         classes = []
         tests = cur.test.values if isinstance(cur.test, ast.BoolOp) and isinstance(cur.test.op, ast.Or) else [cur.test]
@@ -243,6 +292,16 @@ def item_dummy(repo, out):
         if not (len(cur.body) == 1 and isinstance(cur.body[0], ast.Assign) and _src(cur.body[0].targets[0]) == 'value'):
             raise TranslateError('dummy_sensor_getter: a branch does not just assign `value`')
         val = _src(cur.body[0].value)
+        k = _cast_int_filler(cur.body[0].value)
+        if k is not None:
+            # np.array(<k>).astype(dtype)[()]: the integer k CAST into the type (k itself for a signed type, k modulo
+            # 2^bits for an unsigned one) - Model/Concat.v int_dummy
+            int_dummy.append(k)
+            fillers[val] = str(k)
+        elif re.fullmatch(r'np\.dtype\(dtype\)\.type\(-?\d+\)', val):
+            raise TranslateError('dummy_sensor_getter: the integer dummy is CONSTRUCTED in the type (`%s`), which raises '
+                                 'OverflowError for an unsigned integer type under NumPy >= 2: regression of the repair '
+                                 'of finding C19-F4 (expected np.array(<int>).astype(dtype)[()])' % val)
         if val not in fillers:
             raise TranslateError('dummy_sensor_getter: unknown filler expression `%s`' % val)
         for c in classes:
@@ -254,6 +313,12 @@ def item_dummy(repo, out):
         cur = cur.orelse[0]
     out.append('Definition dummy_value_table : list (string * string) := [%s].'
                % '; '.join('(%s, %s)' % (coq_string(a), coq_string(b)) for a, b in table))
+    if len(int_dummy) != 1 or [c for c, f in table if f == str(int_dummy[0])] != ['integer']:
+        raise TranslateError('dummy_sensor_getter: expected exactly one branch np.issubdtype(dtype, np.integer) whose '
+                             'filler is np.array(<int>).astype(dtype)[()]')
+    out.append('Definition dummy_int_is_cast_into_type : bool := true.')
+    out.append('Definition dummy_int_before_cast : Z := %s.' % coq_Z(int_dummy[0]))
+    _c12_constants_fallback(repo, out, int_dummy[0])
     # ConcatenatedSensorCache.get hands it the initial_value property and the common dtype of the parts that have the sensor
     tree = _parse(repo, REL)
     get = _src(_func(_class(tree, 'ConcatenatedSensorCache', REL), 'get', REL))
